@@ -2,13 +2,17 @@ package main
 
 func init() {
 	register(&propDef{ID: "C19", Title: "Shared state is free of data races under concurrent requests",
-		Explanation: "Decides the guarded-by discipline (necessary for race freedom) of the shared mutable state found by reading: every access to the listed struct fields, to the maps they hold, and to the guarded fields of objects stored in those maps has the owning lock in its must-hold set on every path from every entry point (lockset analysis over SSA, interprocedural by requires-summaries); write-once fields are written only in constructors; the static CNI network configuration is never written after Init. Does not decide race freedom of state outside the table, happens-before publication, or races inside dependencies.",
+		Explanation: "Decides the guarded-by discipline (necessary for race freedom) of the shared mutable state found by reading: every access to the listed struct fields, to the maps they hold, and to the guarded fields of objects stored in those maps has the owning lock in its must-hold set on every path from every entry point (lockset analysis over SSA, interprocedural by requires-summaries); (R4) the lock-free shared fields of the long-lived objects are stored only on freshly allocated objects or in the constructor/init functions; (R5) no closure started with `go` captures a variable that is assigned again after the go statement; the static CNI network configuration is never written after Init. Does not decide race freedom of state outside the table, happens-before publication, or races inside dependencies.",
 		Assumptions: []string{"locks are identified by (struct type, field): distinct instances of the same type are not distinguished", "no reflection/unsafe access to the guarded fields"},
 		Run: func(c *Ctx) {
 			c.Rule("C19.R1", "guarded-by: every entry point reaches accesses of the 7 shared states only with the owning lock held (R for reads, W for writes)", 50)
 			ruleGuardedBy(c, "C19.R1", []string{cacheLockID, "FloatingIPPlugin.nodeSubnetLock", "crdKey.Mutex", "crdCache.lock", "PortMappingHandler.Mutex", "PolicyManager.Mutex"}, 60)
 			c.Rule("C19.R3", "the static CNI network configuration is shared read-only (never written after Init)", 3)
 			ruleSharedConfImmutable(c, "C19.R3")
+			c.Rule("C19.R4", "shared fields without a lock are write-once (constructor / init only)", 15)
+			ruleWriteOnce(c, "C19.R4")
+			c.Rule("C19.R5", "goroutine closures share no variable written after they started", 5)
+			ruleGoClosureCaptures(c, "C19.R5")
 			c.Rule("C19.R2", "slices in guarded fields are replaced wholesale, never modified in place", 8)
 			ruleNoInPlaceSliceReuse(c, "C19.R2")
 		}})
